@@ -1034,8 +1034,22 @@ func rearmStopsPrevious(p *Prog, r *Report, R string, inPkg func(rel string) boo
 					}
 					stops := false
 					EachInstr(sc, func(i3 ssa.Instruction) {
-						if c3 := CallOf(i3); c3 != nil && CalleeName(c3) == "time.(*Timer).Stop" && len(c3.Args) > 0 && Desc(c3.Args[0]) == "recv."+fld {
+						c3 := CallOf(i3)
+						if c3 == nil {
+							return
+						}
+						if CalleeName(c3) == "time.(*Timer).Stop" && len(c3.Args) > 0 && Desc(c3.Args[0]) == "recv."+fld {
 							stops = true
+						}
+						// ... or hands the field's address to a helper that stops what it is handed
+						if sc3 := c3.StaticCallee(); sc3 != nil && p.moduleFunc(sc3) && sc3.Blocks != nil {
+							for ai, a := range c3.Args {
+								if fa3, isFA := a.(*ssa.FieldAddr); isFA && ai < len(sc3.Params) && fieldKeyOf(fa3) == k && Desc(fa3.X) == "recv" {
+									if st3, _, _, _ := timerParamEffects(p, sc3, sc3.Params[ai]); st3 {
+										stops = true
+									}
+								}
+							}
 						}
 					})
 					if stops {
